@@ -422,7 +422,8 @@ theorem step_fit (hs : SlashCodeOk) (hg : GuardCodeOk) (s : State) (op : Op) (hi
   | mkbatch => simp only [step, mkBatch]; split <;> first | exact hi | exact fit_same s _ hi rfl rfl rfl
   | mkcall => exact fit_same s _ hi rfl rfl rfl
   | conf k n e b sg => exact confirm_fit s k n e b sg hi
-  | observe n => simp only [step, observe]; split <;> first | exact hi | exact fit_same s _ hi rfl rfl rfl
+  | observe n => simp only [step, observe]; repeat' split
+                 all_goals first | exact hi | exact fit_same s _ hi rfl rfl rfl
   | block dt => exact block_fit hs s dt hi
   | valslash v num den => simp only [step, valSlash]; split <;> first | exact hi | exact fit_same s _ hi rfl rfl rfl
 
